@@ -4,8 +4,8 @@ Line protocol for K_C16 (one input line → one output line).
 
   `cfg k=v …`       sets the configuration and resets the state → `ok`
       keys: user creds friends liked hated favs autojoin invites reconnect sfp logconn reqtimeout wishlist scan
-            slowscan ndirs clear obf clearfail obffail mode(all|any|clear) dirs files      (lists: `a,b,c` or `-`)
-  `start` `login` `logincut <j>` `exec` `populate` `search` `wl` `pp` `loss <reason>` `tick <n>` `srvup 0|1`
+            slowscan race ndirs clear obf clearfail obffail mode(all|any|clear) dirs files      (lists: `a,b,c` or `-`)
+  `start` `login` `logincut <j>` `exec` `populate` `search` `wl` `pp` `sr` `loss <reason>` `tick <n>` `srvup 0|1`
   `srvreply accepted|rejected|garbled|eof` `stop`
       → `att=… conn=… closed=… login=… init=… destr=… res=… exec=… fail=… inv=… frames=… | c=… s=… tasks=… tracked=… u=… r=… p=… open=…`
   unknown line → `error`
@@ -60,7 +60,7 @@ def siteStr : Site → String
 
 def countObs (p : Obs → Bool) (o : List Obs) : Nat := (o.filter p).length
 
-def summary (showRes : Bool) (st : State) (o : List Obs) : String :=
+def summary (c : Config) (showRes : Bool) (st : State) (o : List Obs) : String :=
   let att := countObs (· == .attempt) o
   let conn := countObs (· == .connected) o
   let closed := ",".intercalate (o.filterMap fun x => match x with | .closed r => some (reasonStr r) | _ => none)
@@ -76,7 +76,7 @@ def summary (showRes : Bool) (st : State) (o : List Obs) : String :=
   let inv := countObs (· == .invalid) o
   let frames := ";".intercalate (sortStrs ((o.filterMap fun x => match x with
     | .frames fs => some fs | _ => none).flatten.map frameStr))
-  let tasks := ",".intercalate (sortStrs ((alive st).map siteStr))
+  let tasks := ",".intercalate (sortStrs ((alive c st).map siteStr))
   let tracked := ",".intercalate (sortStrs st.tracked)
   s!"att={att} conn={conn} closed={closed} login={login} init={ini} destr={destr} res={res} exec={exec} " ++
   s!"fail={fail} inv={inv} frames={frames} | c={connStr st.conn} s={b01 st.session} tasks={tasks} " ++
@@ -103,6 +103,7 @@ def setKey (c : Config) (k v : String) : Option Config :=
   | "reqtimeout" => (parseBool v).map fun b => { c with requestTimeout := b }
   | "wishlist" => v.toNat?.map fun n => { c with wishlist := n }
   | "scan" => (parseBool v).map fun b => { c with scanOnStart := b }
+  | "race" => (parseBool v).map fun b => { c with race := b }
   | "slowscan" => (parseBool v).map fun b => { c with slowScan := b }
   | "clear" => v.toNat?.map fun n => { c with clearPort := n }
   | "obf" => v.toNat?.map fun n => { c with obfPort := n }
@@ -134,6 +135,7 @@ def parseOps (c : Config) (toks : List String) : Option (List Op) :=
   | ["search"] => some [.search]
   | ["wl"] => some [.wishlistInterval]
   | ["pp"] => some [.potentialParents]
+  | ["sr"] => some [.searchRequest]
   | ["loss", r] => (parseReason r).map fun r => [.loss r]
   | ["tick", n] => n.toNat?.map fun n => List.replicate n .tick
   | ["srvup", b] => (parseBool b).map fun b => [.setSrvUp b]
@@ -159,7 +161,7 @@ partial def loop (h : IO.FS.Stream) (out : IO.FS.Stream) (c : Config) (st : Stat
       let (st', o) := run c st ops
       -- the result of login() is visible to its caller only: not for the automatic re-login of the watchdog
       let showRes := match ops with | [.login] | [.loginCut _ _ _ _] => true | _ => false
-      out.putStrLn (summary showRes st' o)
+      out.putStrLn (summary c showRes st' o)
       loop h out c st'
     | none => out.putStrLn "error"; loop h out c st
 
